@@ -1,0 +1,59 @@
+// +build verif
+
+package stack
+
+import (
+	"sync"
+
+	"github.com/brewlin/net-protocol/pkg/sleep"
+)
+
+// The waiters of a link-address resolution are kept in a map keyed by pointer:
+// ranging over it wakes them in an order that depends on heap addresses, i.e.
+// differs from one execution to the next. Under the verification harness the
+// order of arrival is remembered on the side and the waiters are asserted in
+// that order (the map is emptied, so the loop that follows finds nothing).
+
+var (
+	verifWakerMu    sync.Mutex
+	verifWakerOrder = map[*linkAddrEntry][]*sleep.Waker{}
+)
+
+func verifNoteWaker(e *linkAddrEntry, w *sleep.Waker, add bool) {
+	verifWakerMu.Lock()
+	defer verifWakerMu.Unlock()
+	if add {
+		if len(e.wakers) == 0 {
+			delete(verifWakerOrder, e) // a fresh (or re-used) entry
+		}
+		verifWakerOrder[e] = append(verifWakerOrder[e], w)
+		return
+	}
+	ws := verifWakerOrder[e]
+	for i, x := range ws {
+		if x == w {
+			verifWakerOrder[e] = append(ws[:i:i], ws[i+1:]...)
+			break
+		}
+	}
+}
+
+func verifAssertWakersInOrder(e *linkAddrEntry) {
+	verifWakerMu.Lock()
+	ws := verifWakerOrder[e]
+	delete(verifWakerOrder, e)
+	verifWakerMu.Unlock()
+	for _, w := range ws {
+		if _, ok := e.wakers[w]; ok {
+			delete(e.wakers, w)
+			w.Assert()
+		}
+	}
+}
+
+// VerifResetWakerOrder forgets the waiters of finished runs.
+func VerifResetWakerOrder() {
+	verifWakerMu.Lock()
+	verifWakerOrder = map[*linkAddrEntry][]*sleep.Waker{}
+	verifWakerMu.Unlock()
+}
